@@ -388,6 +388,9 @@ fn bytes_eq(exp: &[u8], got: &[u8]) -> Result<(), String> {
 
 /// Does the text-protocol cell `got` decode to the value written?
 pub fn text_match(cell: &Cell, got: Option<&[u8]>) -> Result<(), String> {
+    if let Cell::Ref(inner) = cell {
+        return text_match(&norm_ref(inner), got);
+    }
     let is_null = matches!(cell, Cell::Null(_) | Cell::Myc(MycV::Null));
     let g = match (is_null, got) {
         (true, None) => return Ok(()),
@@ -530,6 +533,9 @@ fn norm_time(body: &[u8]) -> Option<(bool, u128)> {
 /// Does the binary-protocol cell `got` (decoded with the advertised column) equal the value
 /// written?
 pub fn bin_match(cell: &Cell, col: &DecCol, got: &BinVal) -> Result<(), String> {
+    if let Cell::Ref(inner) = cell {
+        return bin_match(&norm_ref(inner), col, got);
+    }
     let is_null = matches!(cell, Cell::Null(_) | Cell::Myc(MycV::Null));
     if is_null {
         return if *got == BinVal::Null {
@@ -634,8 +640,18 @@ pub fn bin_match(cell: &Cell, col: &DecCol, got: &BinVal) -> Result<(), String> 
     }
 }
 
+/// the value a `Ref` cell stands for (mirrors the shim's interpretation)
+pub fn norm_ref(inner: &Cell) -> Cell {
+    match inner {
+        Cell::I64(_) | Cell::VecBytes(_) => inner.clone(),
+        Cell::Some(x) if matches!(**x, Cell::I64(_)) => (**x).clone(),
+        _ => Cell::Null(1),
+    }
+}
+
 pub fn cell_kind(c: &Cell) -> &'static str {
     match c {
+        Cell::Ref(_) => "&T",
         Cell::U8(_) => "u8",
         Cell::I8(_) => "i8",
         Cell::U16(_) => "u16",
@@ -1185,7 +1201,8 @@ pub fn o_api(plan: &Plan, out: &Outcome, vs: &mut Vec<Violation>) {
         let Some(ai) = m.act_index else { continue };
         let recs: Vec<_> = out.w.api.iter().filter(|r| r.act as usize == ai).collect();
         if m.expect_api_err {
-            let reached = out.w.act_next > ai;
+            // a panic before the contradicting call says nothing about the contradiction
+            let reached = out.w.act_next > ai && !matches!(out.end, RunEnd::Panic { .. });
             if reached && !recs.iter().any(|r| !r.ok) {
                 vs.push(v(
                     "contradiction-accepted",
